@@ -62,6 +62,29 @@ def addon_jobs(ctx, rng, n):
     return [dict(kind="runs", text="", w=0, h=0, sym=("MULTI" if i % 4 == 3 else c["sym"]), runs=c["runs"], q=12, scale=2 + i % 2) for i, c in enumerate(out)]
 
 
+def aztec_jobs(ctx, rng):
+    """reference Aztec symbols of every codeword size (6, 8, 10, 12 bits: four different Galois fields, the 12-bit one is used by
+    nothing else in the library), built by TLC from spec/Aztec.tla; read concurrently in the fresh process"""
+    import c11
+    sizes = [(1, 2), (0, 4), (0, 9), (0, 23)] + ([] if ctx.quick else [(0, 26), (0, 12), (1, 4)])
+    cases = [dict(c=c, layers=l, pct=8 if l >= 23 else 25, seed=rng.randrange(1, 1 << 30)) for c, l in sizes]
+    return [dict(kind="aztec", text="", w=0, h=0, rows=s["rows"], first=1) for s in c11.gen_symbols(ctx, cases)]
+
+
+CHARSETS = ["UTF-16BE", "UTF-8", "Shift_JIS", "ISO-8859-1", "ISO-8859-7", "GB18030", "EUC-KR", "Big5", "windows-1251", "US-ASCII"]
+
+
+def charset_jobs(rng, n):
+    """QR symbols whose byte segment follows an ECI designator: the readers go through the character-set registry and the text
+    decoders behind it (UTF-16BE's is the only stateful one)"""
+    out = []
+    for i in range(n):
+        cs = CHARSETS[i % len(CHARSETS)] if i % 3 else "UTF-16BE"
+        t = "".join(rng.choice("abcdefghij klmnopqrstuvwxyz,.;!?") for _ in range(rng.randint(4, 60)))
+        out.append(dict(kind="qr", text=t, w=rng.choice([0, 150]), h=rng.choice([0, 150]), cs=cs, first=1 if i < 2 else 0))
+    return out
+
+
 def design_check(ctx):
     res = vlib.run_tlc(ctx, "Conc", "MC_Conc" if ctx.quick else "MC_Conc3", workers=vlib.NCPU, timeout=1800)
     ctx.note("Conc.tla: %d states, all interleavings of %s goroutines x programs of 1-2 operations: NoRace, NoRunPhaseWrite, Deterministic hold" % (
@@ -80,9 +103,10 @@ def run(ctx, inputs=None, label="concurrent run"):
         rng = random.Random(ctx.seed * 977 + 5)
         inputs = []
         plan = [(2, 2), (8, 4), (8, 16), (3, 2)] if ctx.quick else [(2, 2), (4, 4), (8, 16), (16, 16), (32, 8), (64, 16), (3, 3), (8, 2)] * 3
-        addons = addon_jobs(ctx, rng, 8 if ctx.quick else 24)
+        addons = addon_jobs(ctx, rng, 8 if ctx.quick else 24) + aztec_jobs(ctx, rng)
         for (k, procs) in plan:
-            jobs = [mkjob(rng, KINDS[i % len(KINDS)]) for i in range(39 if ctx.quick else 78)] + addons + [mkjob(rng, "dm") for _ in range(6)]
+            jobs = ([dict(mkjob(rng, KINDS[i % len(KINDS)]), first=1 if i < len(KINDS) and i % 4 == 0 else 0) for i in range(39 if ctx.quick else 78)] + addons + [mkjob(rng, "dm") for _ in range(6)]
+                    + charset_jobs(rng, 12 if ctx.quick else 30))
             inputs.append(dict(op="round", k=k, rounds=4 if ctx.quick else 12, procs=procs, seed=rng.randrange(1 << 30), jobs=jobs, share=0))
     # one fresh process per run: shared state that only races while it is cold must meet the goroutines before anything warmed it up
     obs, first = [], ""
